@@ -27,6 +27,10 @@ pub enum Op {
 	RunU,
 	/// raw Control::ContinueTryGracefulRestart through Job::control()
 	ContinueRaw,
+	/// `signal(SIGNALS[i])` — the whole Signal enumeration (C06 side table)
+	SigVar(u8),
+	/// `stop_with_signal(SIGNALS[i], grace)`
+	GStopVar(u8),
 	SetHook,
 	UnsetHook,
 	SetErrH,
@@ -62,7 +66,7 @@ impl Op {
 		}
 	}
 	pub fn is_graceful(self) -> bool {
-		self.graceful_sig().is_some()
+		self.graceful_sig().is_some() || matches!(self, Op::GStopVar(_))
 	}
 	pub fn is_marker(self) -> bool {
 		matches!(self, Op::Run | Op::RunAsync | Op::RunH | Op::RunU)
@@ -73,6 +77,19 @@ impl Op {
 	pub fn ends_job(self) -> bool {
 		matches!(self, Op::Delete | Op::DeleteNow)
 	}
+}
+
+/// (signal, the OS signal number it must be delivered as; unknown numbers fall back to SIGTERM)
+pub fn signal_table() -> Vec<(watchexec_signals::Signal, i32)> {
+	use watchexec_signals::Signal as S;
+	let mut v = vec![(S::Hangup, 1), (S::ForceStop, 9), (S::Interrupt, 2), (S::Quit, 3), (S::Terminate, 15), (S::User1, 10), (S::User2, 12)];
+	for n in [1, 2, 3, 6, 9, 10, 12, 14, 15, 17, 18, 19, 31] {
+		v.push((S::Custom(n), n));
+	}
+	for n in [0, -1, 32, 33, 64, 65, 1000, i32::MAX, i32::MIN] {
+		v.push((S::Custom(n), 15));
+	}
+	v
 }
 
 pub const CORE: [Op; 12] = [
@@ -372,6 +389,16 @@ pub fn order_family(tier: Tier) -> Vec<(Sc, Vec<Bounds>)> {
 				}
 			}
 		}
+	}
+	out
+}
+
+/// The whole signal enumeration through `signal()` and `stop_with_signal()` (C06).
+pub fn sigmap_family(_tier: Tier) -> Vec<(Sc, Vec<Bounds>)> {
+	let mut out = vec![];
+	for i in 0..signal_table().len() as u8 {
+		out.push((Sc::base(vec![(Op::Start, 0), (Op::SigVar(i), 0)], React::Ignore, 2), both(0)));
+		out.push((Sc::base(vec![(Op::Start, 0), (Op::GStopVar(i), 0)], React::Ignore, 2), both(0)));
 	}
 	out
 }
